@@ -155,14 +155,22 @@ func c20Lifecycle(c *vk.Ctx) int {
 		}
 		w.Hooks = world.NewHooks()
 		w.Hooks.Install()
-		cycles := c.Pick(12, 60)
+		cycles := c.Pick(15, 60)
+		// the same directory spelt in the ways a configuration may spell it
+		spellings := []string{"", w.WorkDir + string(os.PathSeparator), w.WorkDir + string(os.PathSeparator) + ".", filepath.Dir(w.WorkDir) + string(os.PathSeparator) + string(os.PathSeparator) + filepath.Base(w.WorkDir)}
+		if cwd, err := os.Getwd(); err == nil {
+			if rel, err := filepath.Rel(cwd, w.WorkDir); err == nil {
+				spellings = append(spellings, rel)
+			}
+		}
 		runtime.GC()
 		time.Sleep(20 * time.Millisecond)
 		g0 := runtime.NumGoroutine()
 		rep := map[string]any{"backend": backendName(disk), "cycles": cycles}
 		for i := 0; i < cycles; i++ {
+			w.WorkDirAs = spellings[(i/3)%len(spellings)]
 			if err := w.Provision(); err != nil {
-				c.Violation(fmt.Sprintf("%s:provision-fails-in-cycle", backendName(disk)), fmt.Sprintf("cycle %d: Provision after a Cleanup failed: %v", i, err), rep)
+				c.Violation(fmt.Sprintf("%s:provision-fails-in-cycle", backendName(disk)), fmt.Sprintf("cycle %d (work_dir spelt %q): Provision after a Cleanup failed: %v", i, w.ConfiguredWorkDir(), err), rep)
 				break
 			}
 			if r := w.Handshake(chain); r.Verdict != "revoked" {
@@ -172,13 +180,14 @@ func c20Lifecycle(c *vk.Ctx) int {
 				c.Violation(fmt.Sprintf("%s:cleanup-fails", backendName(disk)), err.Error(), rep)
 				break
 			}
-			if crl.VerifWorkDirRegistered(w.WorkDir) {
+			if crl.VerifWorkDirRegistered(w.ConfiguredWorkDir()) {
 				c.Violation("work-dir-still-registered-after-cleanup", "Cleanup returned but the work_dir is still registered as in use", rep)
 				break
 			}
 			n++
 			c.Eval(fmt.Sprintf("cycle|%v|%d", disk, i))
 		}
+		w.WorkDirAs = ""
 		// a Provision that fails half way (the configured CRL is unusable) followed by the Cleanup Caddy performs must release
 		// everything as well: the next Provision on the same work_dir has to succeed
 		for i := 0; i < 3; i++ {
